@@ -406,6 +406,21 @@ class Transformer(ast.NodeTransformer):
             return node
         site = self._site("for", node)
         live = self.live_after.get(id(node), None)
+        # T2b: a relay / map loop of a generator, `for v in IT: yield E`, is `yield from (E for v in IT)` (no send/throw is used
+        # on these generators, E is evaluated once per item in order either way): it needs no loop contract
+        if (self.yield_to_emit and isinstance(node.target, ast.Name) and not node.orelse and len(node.body) == 1
+                and isinstance(node.body[0], ast.Expr) and isinstance(node.body[0].value, ast.Yield)
+                and node.body[0].value.value is not None and not _has([node.body[0].value.value], (ast.Yield, ast.YieldFrom, ast.NamedExpr))
+                and node.target.id not in (live or ())):
+            elt = node.body[0].value.value
+            if isinstance(elt, ast.Name) and elt.id == node.target.id:
+                src = node.iter
+            else:
+                src = ast.GeneratorExp(elt=elt, generators=[ast.comprehension(target=node.target, iter=node.iter, ifs=[], is_async=0)])
+            new = ast.Expr(value=ast.YieldFrom(value=src))
+            ast.copy_location(new, node)
+            ast.fix_missing_locations(new)
+            return ast.copy_location(ast.Expr(value=self.visit(new.value)), node)
         # inner loops of the *cut copy* and of the *original copy* get distinct ordinals only once: we transform
         # the body once and reuse the transformed body in both branches
         node.body = self._visit_block(node.body)
